@@ -78,7 +78,7 @@ def gen_cases(tier, seed):
         dev, mcm = DEVICES[i % len(DEVICES)]
         n = rng.choice([2, 2, 3, 3, 4])
         clifford = dev == "default.clifford" and rng.random() < 0.8
-        dynamic = rng.random() < 0.3
+        dynamic = rng.random() < 0.4
         prog, fresh, nm = [], set(range(1, n + 1)), 0
         r = rng.random()
         if r < 0.2:
@@ -96,9 +96,11 @@ def gen_cases(tier, seed):
             if dynamic and r < 0.35 and nm < 2:
                 w = rng.randint(1, n)
                 post = rng.choice([1, 2]) if rng.random() < 0.12 else 0
-                prog.append(("measure", w, int(rng.random() < 0.4), post))
+                prog.append(("measure", w, int(rng.random() < 0.5), post))
                 fresh.discard(w)
                 nm += 1
+                if rng.random() < 0.6:          # reuse the measured wire (deferred measurement then needs an auxiliary wire)
+                    prog.append(("gate", rec(rng.choice(["Hadamard", "SX", "PauliX"]), [w])))
             elif dynamic and r < 0.55 and nm >= 1:
                 avail = [k for k, c in enumerate(CONDS) if c[1] <= nm]
                 ci = rng.choice(avail)
